@@ -35,7 +35,7 @@ def RULE(tier):
             "exactly when the server serviced at tyme >= last traffic + tymeout; a connection with traffic in every window is never "
             "closed. The same for the other direction: the whole request arrives at once and the response drains with the kernel "
             "accepting 0 / 1 / 2 bytes per tick; for the body of an HTTP/1.1 'Connection: close' (also 'TE, close') request trickling in after its head; and for a "
-            "streaming application that yields nothing or one byte per service pass (all 2^n output timings). Also with the server wound to the clock only after the connection was accepted. Each "
+            "streaming application that yields nothing or one byte per service pass (all 2^n output timings), and for one that yields a byte at every pass while the client reads it or not. Also with the server wound to the clock only after the connection was accepted. Each "
             "with the servant built by http.Server from its own parameters and with a servant handed in that has a wire log attached. "
             "The tree of timings is enumerated completely." % ((13, 13) if tier == "quick" else (16, 16)))
 
@@ -62,6 +62,9 @@ def jobs(tier):
             # a streaming application that yields nothing (b'') or one byte per service pass: all 2^n output timings
             for build in ("own", "given+wl"):
                 js.append(("C12", tls, tymeout, nt, 2, "app", build))
+            # the application produces a byte at every pass, the client reads or does not (kernel accepts 1 / 0 bytes): bytes
+            # queued in the server but not moving are not traffic
+            js.append(("C12", tls, tymeout, nt, 2, "appdown", "own"))
     return sharded(js, 8)
 
 
@@ -146,7 +149,14 @@ def harness(job, ch):
         for k in range(nticks):
             tymist.tick()
             t = tymist.tyme
-            if direction == "app":
+            if direction == "appdown":
+                if k == 0:
+                    raw.send(REQSTREAM)
+                n = ch.choose(nopts, "tick%d" % k)
+                pattern.append(n)
+                APPFEED[0] = b"x"
+                pol.allow = n
+            elif direction == "app":
                 if k == 0:
                     raw.send(REQSTREAM)
                 n = ch.choose(nopts, "tick%d" % k)
@@ -188,14 +198,14 @@ def harness(job, ch):
             if closed and closed_at is None:
                 closed_at = t
                 if idle_for < tymeout:   # (bytes flushed by the closing call itself are not traffic that keeps it alive)
-                    viol.append(("closed-while-active:%s%s" % ("tls" if tls else "plain", ":response-draining" if direction == "down" else ":body" if direction.startswith("body") else ":app-streaming" if direction == "app" else ""),
+                    viol.append(("closed-while-active:%s%s" % ("tls" if tls else "plain", ":response-draining" if direction == "down" else ":body" if direction.startswith("body") else ":app-streaming" if direction.startswith("app") else ""),
                                  "tymeout %s: connection closed at tyme %s, last traffic at %s (pattern %s)" % (tymeout, t, last if traffic else t - idle_for, pattern)))
                 if in_tables:
                     viol.append(("closed-but-in-tables", "socket closed at %s but server tables still hold the connection" % t))
                 break
             if not closed and not traffic and idle_for >= tymeout:
                 viol.append(("idle-not-closed:%s:%s%s" % ("late" if _closes_later(server, tymist, raw, 8) else "never", "tls" if tls else "plain",
-                                                           ":response-stalled" if direction == "down" else ":body-stalled" if direction.startswith("body") else ":app-stalled" if direction == "app" else ""),
+                                                           ":response-stalled" if direction == "down" else ":body-stalled" if direction.startswith("body") else ":app-stalled" if direction == "app" else ":app-output-not-moving" if direction == "appdown" else ""),
                              "tymeout %s: no traffic since tyme %s, serviced at %s, connection still open (pattern %s)" % (tymeout, last, t, pattern)))
                 break
         if escaped:
